@@ -53,10 +53,16 @@ def main(ctx, args):
         for q in Q:
             g = "(" + x + ")" + q
             brk += [g, g + "b", "a" + g + "ab", g + "c|ab"] + ([] if ctx.quick else ["(" + g + ")", g + "(b)", "(a)" + g, g + g])
-    # repetition bounds: {m,} with m >= 2, {m,n}, {0,} on atoms, brackets and groups, anchored and not
-    for x in ["a", "[ab]", "(a|b)", ".", "(ab)"]:
-        for b in ["{2,}", "{3,}", "{2,3}", "{0,}", "{1,2}", "{0,1}", "{3}"]:
-            brk += [x + b, "^" + x + b + "b", x + b + "$", "b" + x + b + "a"]
+    # repetition bounds: {m,} with m >= 2, {m,n}, {0,} on atoms, brackets and groups, anchored and not - on lines of <= 3 characters
+    bnd = []
+    for x in ["a", "[ab]", "(a|b)", "."] + ([] if ctx.quick else ["(ab)"]):
+        for b in ["{2,}", "{3,}", "{2,3}", "{0,}", "{1,2}"] + ([] if ctx.quick else ["{0,1}", "{3}"]):
+            bnd += [x + b, "^" + x + b + "b", x + b + "$"] + ([] if ctx.quick else ["b" + x + b + "a"])
+    perb = max(1, (len(bnd) + NCPU - 1) // NCPU)
+    for i in range(0, len(bnd), perb):
+        f = ctx.path("gen", "bnd_%d.ndjson" % i)
+        open(f, "w").write("".join(json.dumps([ord(c) for c in x]) + "\n" for x in bnd[i:i + perb]))
+        jobs.append(dict(MODE="cplines", IDXFILE=f, LMAX=3))
     brk = sorted(set(brk))
     per = max(1, (len(brk) + NCPU - 1) // NCPU)
     for i in range(0, len(brk), per):
